@@ -2,19 +2,24 @@
 
 Explicit-state search over *histories of compilations* on the real process-wide compiler state.
 
-* Alphabet: the designs of verif/gen/c11_designs.py (accepted ones and rejected ones, one per failure stage).
-* Golden outcome of a letter = its compilation in a fresh interpreter with an empty history.
-* History tree: every sequence of <= DEPTH letters (quick: 3 in mode reuse, 2 in mode fresh; thorough: 4 / 3) is executed in one interpreter; the
-  tree is explored depth-first with os.fork() as the state snapshot (verif/gen/c11_tree.py, a stand-alone
-  script started in fresh interpreters with PYTHONHASHSEED=0; first-level/second-level subtrees are
-  distributed over pmap workers).  Two modes: "reuse" (same class object compiled again) and "fresh"
-  (each compilation imports a new copy of the module file).
+* Alphabet: the 27 designs of verif/gen/c11_designs.py (accepted ones and rejected ones, one per failure stage).
+* Golden outcome of a letter = its compilation in a fresh interpreter (PYTHONHASHSEED=0) with an empty history.
+* History tree: every history up to a complete length is executed in one interpreter; the tree is explored
+  depth-first with os.fork() as the state snapshot (verif/gen/c11_tree.py, a stand-alone script started in fresh
+  interpreters; subtrees are distributed over pmap workers).  Mode "reuse": the same class object is compiled
+  again; mode "fresh": each compilation imports a new copy of the module file.
+    quick   : all histories <=2 over all letters (reuse); <=3 over the 6-letter core (reuse); <=2 over the core (fresh)
+    thorough: all histories <=3 over all letters (reuse); <=4 over the 8-letter core (reuse); <=2 over all letters (fresh)
+* Corpus stratum: upstream reference designs X (cocotb stubbed): [X, X] for every 4th design (quick); for all
+  designs [X, X], [X, Y] for the 8 designs following X and [rejected letter, X] (thorough).
 * Oracle: after every history an accepted design yields the golden bytes; a rejected design is rejected
-  again with the same exception class (the message may differ: weakest reading).
-* Fresh-interpreter variants: every accepted design under PYTHONHASHSEED in {0..3} (thorough {0..15}) and
-  perturbed allocation must equal the golden bytes.
+  again with the same exception class (the message may differ: weakest reading).  Deviations are reduced to
+  minimal failing histories (key hist/<h1>>h2..=><victim>#<kind>).
+* Fresh-interpreter variants: every accepted design, compiled twice, under other PYTHONHASHSEED values and
+  perturbed allocation must equal the golden bytes (key fresh/<letter>).
 
-No compiler state is reset by the check (verif.cohdl_util is not used).
+No compiler state is reset by the check (verif.cohdl_util is not used).  The check refuses to give a verdict
+(tool error) when the cohdl source tree changes while it is running.
 """
 from __future__ import annotations
 
@@ -144,14 +149,17 @@ def compute_golden(run, moddir, letters, order):
 
 
 def check_variants(run, moddir, letters, order, golden):
-    seeds = list(range(16)) if run.thorough else [0, 1, 2, 3]
-    preallocs = [0, 1000, 50000, 333333] if run.thorough else [0, 1000, 50000]
+    if run.thorough:
+        combos = [(s, n) for s in range(16) for n in (0, 1000, 50000, 333333)]
+    else:
+        combos = [(1, 0), (2, 0), (3, 0), (0, 50000)]
+    run.coverage_extra["variant_configurations"] = [f"PYTHONHASHSEED={s},prealloc={n}" for s, n in combos][:8]
     tasks = []
     for l in order:
         if not golden[l]["ok"]:
             continue
-        for s in seeds:
-            for n in preallocs:
+        for s, n in combos:
+            if True:
                 spec = base_spec(moddir, letters, order)
                 # the letter is compiled twice in the variant interpreter: both must give the golden bytes
                 spec.update(mode="reuse", prefix=[l, l], depth=2, golden=None, record=True, prealloc=n)
@@ -192,19 +200,21 @@ def write_golden(moddir, golden):
     return path
 
 
-CORE = ["coro", "syncflag", "prefix", "env3", "env5",
-        "rej_arch", "rej_lowering", "rej_seqctx", "rej_prefix_ctx", "rej_backend"]
+CORE6 = ["coro", "syncflag", "prefix", "rej_lowering", "rej_seqctx", "rej_prefix_ctx"]
+CORE8 = CORE6 + ["env3", "env5"]
 
 
 def tree_strata(run, order):
     """(label, mode, alphabet, complete history length, task prefix length, count_min_len).
     Fork+compile costs ~1500 page faults per node and does not scale with the number of workers on the
-    target VM, so the full alphabet is explored one level less deep than the 10-letter core."""
-    core = [l for l in CORE if l in order]
+    target VM (a few nodes/s under load, ~25/s idle), so the full alphabet is explored one level less deep
+    than a small core (one letter per mechanism that ever leaked)."""
     if run.thorough:
+        core = [l for l in CORE8 if l in order]
         strata = [("full", "reuse", order, 3, 2, 0), ("full", "fresh", order, 2, 1, 0), ("core", "reuse", core, 4, 2, 4)]
     else:
-        strata = [("full", "reuse", order, 2, 1, 0), ("full", "fresh", order, 2, 1, 0), ("core", "reuse", core, 3, 1, 3)]
+        core = [l for l in CORE6 if l in order]
+        strata = [("full", "reuse", order, 2, 1, 0), ("core", "fresh", core, 2, 1, 0), ("core", "reuse", core, 3, 2, 3)]
     ov = os.environ.get("VERIF_C11_DEPTH")  # development aid only, e.g. "full=2,fresh=1,core=3"
     if ov:
         d = dict(part.split("=") for part in ov.split(","))
@@ -266,7 +276,7 @@ def check_tree(run, moddir, letters, order, golden, devs):
     run.coverage_extra["strata"] = [
         {"alphabet": label, "mode": mode, "letters": len(alpha), "complete_history_length": depth}
         for (label, mode, alpha, depth, plen, cmin) in strata]
-    run.coverage_extra["core_alphabet"] = [l for l in CORE if l in order]
+    run.coverage_extra["core_alphabet"] = [l for l in (CORE8 if run.thorough else CORE6) if l in order]
     run.coverage_extra["alphabet_size"] = len(order)
     expected_nodes = sum(len(alpha) ** k for (_, _, alpha, depth, _, cmin) in strata
                          for k in range(max(1, cmin), depth + 1))
@@ -296,6 +306,9 @@ def corpus_letters():
 
 def check_corpus(run, moddir, letters, order, golden, devs):
     cl = corpus_letters()
+    if not run.thorough:
+        # quick: every 4th upstream design (fixed, seed independent); thorough: all of them
+        cl = dict(list(cl.items())[::4])
     lim = os.environ.get("VERIF_C11_CORPUS_LIMIT")
     if lim:  # development aid only
         cl = dict(list(cl.items())[:: max(1, len(cl) // int(lim))][: int(lim)])
@@ -309,7 +322,7 @@ def check_corpus(run, moddir, letters, order, golden, devs):
     acc = [c for c in corder if cgold[c]["ok"]]
     run.count("corpus_designs", len(corder))
     run.count("corpus_designs_accepted", len(acc))
-    if len(acc) < (100 if not lim else 1):
+    if len(acc) < (1 if lim else (100 if run.thorough else 25)):
         run.tool_error(f"vacuous corpus: only {len(acc)} of {len(corder)} upstream designs compile in a fresh interpreter")
         return
     allgold = dict(golden)
@@ -319,7 +332,7 @@ def check_corpus(run, moddir, letters, order, golden, devs):
     allletters.update(cl)
     tasks = []
     # (a) every rejected letter of the alphabet followed by every accepted corpus design
-    rejected = [l for l in order if not golden[l]["ok"] and (run.thorough or l in CORE)]
+    rejected = [l for l in order if not golden[l]["ok"]] if run.thorough else []
     for p in rejected:
         for chunk in chunked(acc, 30):
             spec = base_spec(moddir, allletters, [p] + chunk)
@@ -336,7 +349,7 @@ def check_corpus(run, moddir, letters, order, golden, devs):
     expected = len(rejected) * len(acc) + len(acc) * (1 + (9 if run.thorough else 1))
     if got != expected and not run.tool_errors:
         run.tool_error(f"corpus stratum incomplete: {got} nodes executed, expected {expected}")
-    run.coverage_extra["corpus_stratum"] = ("[rejected letter, X] for all accepted upstream designs X; "
+    run.coverage_extra["corpus_stratum"] = (("all upstream designs X: [rejected letter, X]; " if run.thorough else "every 4th upstream design X: ")
                                             + ("[X, X] and [X, Y] for the 8 designs following X" if run.thorough else "[X, X]")
                                             + f"; rejected letters used: {rejected}")
 
